@@ -258,6 +258,30 @@ def rule_optional_payload(ctx):
                        f"{what} is Optional (None when the message carries none) but is unpacked/indexed unguarded: TypeError out of onMessage, "
                        f"which closes the transport", fn.loc(node))
     ctx.require(count >= 10, f"only {count} uses of msg.args/msg.kwargs found")
+    # CallRequest.options is Optional as well (call() without options): every read of one of its attributes needs the guard
+    n_opt = 0
+    for n in om.arm_nodes("Result"):
+        facts = om.mf.at(n) or ()
+        from ..core.cfg import node_exprs
+        for e in node_exprs(n):
+            if not isinstance(e, ast.AST):
+                continue
+            # short-circuit operands: `a and a.b` guards a.b inside the same expression
+            guarded_here = set()
+            for x in ast.walk(e):
+                if isinstance(x, ast.BoolOp) and isinstance(x.op, ast.And):
+                    for i, v in enumerate(x.values):
+                        if norm.text(v) == "call_request.options":
+                            for later in x.values[i + 1:]:
+                                guarded_here |= {id(y) for y in ast.walk(later)}
+            for x in ast.walk(e):
+                if isinstance(x, ast.Attribute) and norm.text(x.value) == "call_request.options" and isinstance(x.ctx, ast.Load):
+                    n_opt += 1
+                    ok = ("truth", "call_request.options", None, True) in facts or id(x) in guarded_here
+                    ctx.ob(f"RESULT: `{norm.text(x)}` read only when the call has options [{stmt_key(n.ast)[:40]}]", ok,
+                           "call() without CallOptions stores options=None: this read raises AttributeError out of onMessage (a router sending an "
+                           "unrequested progressive RESULT closes the transport and fails every pending request)", om.fn.loc(x))
+    ctx.require(n_opt >= 3, f"only {n_opt} reads of call_request.options.* found in the RESULT arm")
 
 
 def rule_options(ctx):
